@@ -65,8 +65,9 @@ class PaneBase:
     ):
         old_params = getattr(cls, '__parameters__', ())
         super().__init_subclass__(*args, **kwargs)
-        # (a variable forwarded to a base *and* re-declared in Generic[...] must only be listed once)
-        setattr(cls, '__parameters__', tuple(dict.fromkeys(old_params + getattr(cls, '__parameters__', ()))))
+        # (a variable forwarded to a base *and* re-declared in Generic[...] must only be listed once,
+        # and an explicit Generic[...] decides the order, as it does for ordinary generic classes)
+        setattr(cls, '__parameters__', tuple(dict.fromkeys(getattr(cls, '__parameters__', ()) + old_params)))
 
         if rename is not None:
             if in_rename is not None or out_rename is not None:
